@@ -324,3 +324,49 @@ def c19(a):
     c.assumptions = TRUSTED + ["hooks in /repo under cfg(jiff_verif): mock monotonic clock, ttl setter, critical-section events",
                                "the harness's TZif writer for fixed-offset files"]
     return c.finish()
+
+
+@prop("C20")
+def c20(a):
+    from vlib import tlc_simulate
+    c = Check("C20", a.tier, a.seed)
+    wd = workdir("C20")
+    binary = build_harness()
+    quick = a.tier == "quick"
+    # Engine C: every interleaving of new/clone/drop on 4 slots
+    c.add_mc(tlc_mc("TzHandle.tla", "MC_TzHandle.cfg" if quick else "MC_TzHandle_thorough.cfg", os.path.join(wd, "mc")))
+    # Engine B: TLC-generated programs executed on real TimeZone values
+    items = sorted(set(tlc_simulate("TzHandleSim.tla", "TzHandleSim.cfg", os.path.join(wd, "sim"), num=200 if quick else 4000,
+                                    depth=40, marker="PROG", seed=a.seed + 1)))
+    pp = os.path.join(wd, "programs.jsonl")
+    with open(pp, "w") as f:
+        for it in items:
+            f.write(it + "\n")
+    s = run_driver(binary, "c20", os.path.join(wd, "replay"), a.tier, a.seed, ["--programs", pp])
+    c.add_summary(s)
+    for fpath in s["files"]:
+        for line in open(fpath):
+            e = json.loads(line)
+            if e["ok"]:
+                c.traces += 1
+            else:
+                prog = json.loads(items[e["pid"]])
+                for st in prog:
+                    st.pop("exp", None)
+                why = sorted({m.get("what", "?") for m in e["mismatches"]})
+                c.violation("a real TimeZone handle diverges from TzHandle.tla: " + ", ".join(why),
+                            {"event": {"program": prog, "mismatches": e["mismatches"][:10]}})
+    # every fixed offset
+    drive_and_validate(c, a, binary, "c20fixed", "Trace_Handle.tla")
+    c.exhaustive = True
+    c.rule = ("Engine C: TzHandle.tla (new/clone/drop over 4 handle slots and every kind: UTC, unknown, fixed, static, TZif "
+              "from bytes, POSIX) model-checked exhaustively for RcInv (strong count = live handles), FreeInv (freed exactly "
+              "once, exactly when the last handle goes), NoUseAfterFree, EqLaws. Engine B: TLC -simulate generates programs of "
+              "16 steps (clone and drop optionally on another thread); the harness executes them on real TimeZone values and "
+              "after every step compares pointer tag, heap object identity and Arc strong count (hook __verif_repr), the "
+              "number of frees of each payload seen by a tracking global allocator, value equality of all live pairs and the "
+              "query answer of every live handle with the model. All 187,199 fixed offsets are enumerated (Trace_Handle.tla). "
+              "Non-trivial = programs with cross-thread steps / negative offsets.")
+    c.assumptions = TRUSTED + ["hook TimeZone::__verif_repr (read-only, cfg jiff_verif)",
+                               "the harness's tracking global allocator (records alloc/dealloc addresses while a program runs)"]
+    return c.finish()
